@@ -7,7 +7,10 @@
    op as in the C06 driver: kind,flavor,stack,force,noaction,args...  with ~ for an absent optional string
    answer:  ok#K:path;K:path;...  the record-level effects (Model/CrashDb.image of Db.effects) of the last op on the
             state the model reaches by the history: K = W (write) R (remove) M (mkdir) X (rmdir);  or err:Kind
-   line:  crashview <TAB> pinned <TAB> path(,) <TAB> history <TAB> op <TAB> j
+   line:  crashview <TAB> pinned <TAB> path(,) <TAB> history <TAB> op <TAB> j [<TAB> K:path;K:path;...]
+          with the optional last field the effects of op are first put in that (observed) order: the listed effects,
+          each matched with the first unused effect of op of the same kind and path, then the others; j is then the
+          number of listed effects; the answer is no-such-effect when one of them is not an effect of op
    answer:  what Model/CrashDb.read_db reports on the store built by the history (store_of) after the system calls
             of the first j record-level effects of op under the temporary+rename protocol (crash_fs):
             ok#n,v,flavor,dir,tag+tag;...#n,tag,flavor,v;...   one row per declaration with the tags that point at
@@ -77,7 +80,17 @@ let handle (f : Stdlib.String.t array) : Stdlib.String.t =
     let hist = Stdlib.List.map dec_op (split_sep '|' f.(3)) in
     let d = run pinned (empty_db path) hist in
     let es = (match effects_gen pinned d (dec_op f.(4)) with Ok es -> es | Err _ -> []) in
-    let j = int_of_string f.(5) in
+    let rec pick o = function
+      | [] -> None
+      | e :: r -> if show_effect (image e) = o then Some (e, r)
+                  else (match pick o r with Some (x, r') -> Some (x, e :: r') | None -> None) in
+    let rec order obs es acc = match obs with
+      | [] -> Some (Stdlib.List.rev acc @ es)
+      | o :: r -> (match pick o es with Some (e, es') -> order r es' (e :: acc) | None -> None) in
+    let obs = if Array.length f > 6 then Some (split_sep ';' f.(6)) else None in
+    let reordered = (match obs with None -> Some es | Some l -> order l es []) in
+    (match reordered with None -> "no-such-effect" | Some es ->
+    let j = (match obs with None -> int_of_string f.(5) | Some l -> Stdlib.List.length l) in
     let rec take n l = if n <= 0 then [] else (match l with [] -> [] | x :: r -> x :: take (n - 1) r) in
     let pos = Stdlib.List.length (lower_all lower_atomic (Stdlib.List.map image (take j es))) in
     (match read_db path (crash_fs (store_of path hist) es (nat_of_int pos)) with
@@ -91,7 +104,7 @@ let handle (f : Stdlib.String.t array) : Stdlib.String.t =
            a.adecls in
        let tags = Stdlib.List.map (fun ((((_, n), t), fl), v) ->
            Stdlib.String.concat "," [enc_str n; enc_str t; enc_str fl; enc_str v]) a.atags in
-       "ok#" ^ Stdlib.String.concat ";" rows ^ "#" ^ Stdlib.String.concat ";" tags)
+       "ok#" ^ Stdlib.String.concat ";" rows ^ "#" ^ Stdlib.String.concat ";" tags))
   | "crash" ->
     let lower = if f.(1) = "atomic" then lower_atomic else lower_inplace in
     enc_fs (crash_state lower (dec_fs f.(2)) (Stdlib.List.map dec_effect (split_sep ';' f.(3)))
